@@ -560,6 +560,12 @@ class Repo:
                             self._et_depth = depth
                         if t:
                             return t
+            # a loop / comprehension variable over a container of known element type:
+            #   for v in X.values() / for k, v in X.items() / for v in X   (X = attribute with element types)
+            if expr.id not in f.params:
+                t = self._loop_var_types(expr.id, f, local_types)
+                if t:
+                    return t
             h = ROLE_HINTS.get(expr.id)
             return {h} if h and h in self.classes else set()
         if isinstance(expr, ast.Attribute):
@@ -583,6 +589,53 @@ class Repo:
                 expr.func.id in self.classes:
             return {expr.func.id}
         return set()
+
+    def _loop_var_types(self, name, f, local_types):
+        cache = self.__dict__.setdefault('_lv_cache', {})
+        key = (id(f.node), name)
+        if key in cache:
+            return cache[key]
+        cache[key] = set()
+        binders = []
+        stores = 0
+        for n in ast.walk(f.node):
+            if isinstance(n, ast.Name) and n.id == name and isinstance(n.ctx, ast.Store):
+                stores += 1
+            if isinstance(n, (ast.For, ast.AsyncFor)):
+                binders.append((n.target, n.iter))
+            elif isinstance(n, ast.comprehension):
+                binders.append((n.target, n.iter))
+        out = None
+        n_bind = 0
+        for tg, it in binders:
+            role = None
+            if isinstance(tg, ast.Name) and tg.id == name:
+                role = 'elem'
+            elif isinstance(tg, (ast.Tuple, ast.List)) and len(tg.elts) == 2 and isinstance(tg.elts[1], ast.Name) \
+                    and tg.elts[1].id == name:
+                role = 'value'
+            if role is None:
+                continue
+            n_bind += 1
+            ts = set()
+            cont = None
+            if isinstance(it, ast.Call) and isinstance(it.func, ast.Attribute) and not it.args:
+                if role == 'value' and it.func.attr == 'items':
+                    cont = it.func.value
+                elif role == 'elem' and it.func.attr == 'values':
+                    cont = it.func.value
+            elif role == 'elem' and isinstance(it, ast.Attribute):
+                cont = None       # iterating a dict attribute gives keys, a list attribute elements: not decided here
+            if isinstance(cont, ast.Attribute):
+                for b in self.expr_types(cont.value, f, local_types):
+                    ts |= self.elem_types.get((b, cont.attr), set())
+            if not ts:
+                out = set()
+                break
+            out = ts if out is None else (out | ts)
+        if out and n_bind == stores:
+            cache[key] = out
+        return cache[key]
 
     def _assigns_attr(self, base_types, attr):
         """does one of the classes assign self.<attr> itself (then its type is
